@@ -385,6 +385,11 @@ var vfC12Targets = []vfC12Target{
 		defer ll.Close()
 		ll.Read(0)
 		ll.ReadWithSize(0, uint64(len(d)))
+		// records that (according to a corrupt previous-record pointer or index entry: 6-byte offset, 3-byte size)
+		// start at / beyond the end of the log: nothing can be read, so nothing of the declared size may be allocated
+		for _, off := range []uint64{uint64(len(d)), uint64(len(d)) + 1, uint64(len(d)) + 9, uint64(len(d)) + 1000, 1 << 32, 1<<48 - 1} {
+			ll.ReadWithSize(off, 1<<24-1)
+		}
 		for _, sz := range []uint64{0, 1, 5, 9, 10, 11, 128, 1 << 20} {
 			ll.ReadWithSize(0, sz)
 			ll.ReadWithSize(3, sz)
@@ -833,6 +838,14 @@ func TestVfC12(t *testing.T) {
 		run.Class("regress-replayed")
 	}
 	only := os.Getenv("VERIF_C12_TARGET")
+	maxExcess := map[string]int64{} // per target: largest (bytes allocated - 256 x input length) seen
+	defer func() {
+		kib := map[string]int64{}
+		for k, v := range maxExcess {
+			kib[k] = v >> 10
+		}
+		run.Note("max_alloc_above_256x_input_KiB", kib)
+	}()
 	rapid.Check(t, func(rt *rapid.T) {
 		tg := &vfC12Targets[rapid.IntRange(0, len(vfC12Targets)-1).Draw(rt, "target")]
 		if only != "" {
@@ -844,6 +857,9 @@ func TestVfC12(t *testing.T) {
 		c := &vfC12Case{Target: tg.name, Data: data, How: how}
 		run.SetLast(c)
 		out, err := vfC12exec(w, tg, data)
+		if ex := int64(out.alloc) - 256*int64(len(data)); ex > maxExcess[tg.name] {
+			maxExcess[tg.name] = ex
+		}
 		if err != nil && strings.Contains(err.Error(), "did not return within") {
 			// the parser is still running in its goroutine and cannot be stopped: report and leave
 			run.Abort(c, fmt.Sprintf("C12 violated: target %s (%s mutation, %d bytes): %v", tg.name, how, len(data), err))
